@@ -6,7 +6,7 @@ Reads include/nstd/Variant.hpp of the CURRENT sources (`NSTD_REPO`, default /rep
     clear()                         Variant(const Variant&)            operator=(const Variant&)
     toMap() toList() toArray() toString()   (mutable)                  toMap() toList() toArray() const
     operator=(bool double int uint int64 uint64)                       operator=(const HashMap& List& Array& String&)
-    getType() isNull() toBool() toInt() toUInt() toInt64() toUInt64() toDouble() toString() const
+    getType() isNull() toBool() toInt() toUInt() toInt64() toUInt64() toDouble() toString() const       operator==(const Variant&)
 
 (tokenizer + recursive-descent parser of the C++ subset these bodies are written in) and writes them, statement by statement,
 as Lean functions into lean/Nstd/Generated/VariantRep.lean (over the vocabulary of lean/Nstd/Variant/Raw.lean: the object is
@@ -29,6 +29,8 @@ Rules of the translation (listed in the MANIFEST note):
     tag T must be the member that tag stores (anything else is a reinterpretation: refused); casts between integer types are
     value-preserving when the source range is inside the target range and reductions mod 2^32/2^64 otherwise; a double is
     opaque (`DblSem`); `String::to*`/`String::from*` are the area's definitions of them.
+  * `operator==`: per tag of `*this`; a test of `other.data->type` becomes a match on `other`; the containers' `operator==` on two
+    payloads of the same type (`ceq`) and the recursive call `other == *this` (`flip`) are parameters; `#ifdef ASSERT` lines dropped.
 """
 import hashlib
 import re
@@ -48,6 +50,7 @@ class Refuse(Exception):
 def clean(src):
     src = re.sub(r"/\*.*?\*/", " ", src, flags=re.S)
     src = re.sub(r"//[^\n]*", "", src)
+    src = re.sub(r"(?m)^[ \t]*#[ \t]*(ifdef|ifndef|endif|else)\b[^\n]*$", "", src)      # `#ifdef ASSERT` around `default: ASSERT(false);`
     src = re.sub(r"NSTD_VERIF_RC_YIELD_EXPR\s*\(\s*\"\w+\"\s*,\s*&data->ref\s*\)", " ", src)
     src = re.sub(r"NSTD_VERIF_RC_YIELD\s*\(\s*\"\w+\"\s*,\s*&data->ref\s*\)\s*;", " ", src)
     return src
@@ -981,6 +984,136 @@ class Coe:
         return "\n".join(arms)
 
 
+
+
+class Eq(Coe):
+    """operator==(const Variant& other) per type tag of *this; the containers' operator== and the recursive call are parameters"""
+
+    def dyn(self, e):
+        """a test of `other.data->type` against a constant: the tag number, or None"""
+        e = strip(e)
+        if e[0] == "not":
+            r = self.dyn(e[1])
+            return None if r is None else (r[0], not r[1])
+        if e[0] == "bin" and e[1] in ("==", "!="):
+            for a, b in ((strip(e[2]), strip(e[3])), (strip(e[3]), strip(e[2]))):
+                if a == ("mem", ("mem", ("id", "other"), "data", False), "type", True) and self.const_of(b) is not None:
+                    return (self.const_of(b), e[1] == "==")
+        return None
+
+    def payload(self, e, who):
+        """`*(const T*)(data + 1)` / `*(const T*)(other.data + 1)`: T's kind"""
+        e = strip(e)
+        if e[0] == "deref":
+            c = strip(e[1])
+            if c[0] == "cast" and c[1][1] in KIND_OF and c[1][2] == 1:
+                inner = strip(c[2])
+                base = ("id", "data") if who == "this" else ("mem", ("id", "other"), "data", False)
+                if inner[0] == "bin" and inner[1] == "+" and strip(inner[2]) == base and strip(inner[3]) == ("num", 1):
+                    return KIND_OF[c[1][1]]
+        return None
+
+    def pay_eq(self, e, tag, k):
+        """`payload(this) == payload(other)` under the established `other.data->type == k`"""
+        e = strip(e)
+        if e[0] == "bin" and e[1] == "==" and self.payload(e[2], "this") == tag and self.payload(e[3], "other") == k and tag == k:
+            return "(x == t)" if tag == 10 else "(ceq v other)"
+        self.refuse(f"comparison {e!r} is not payload == payload of the tested type")
+
+    def value(self, e, tag):
+        e = strip(e)
+        if e[0] == "boollit":
+            return "some " + ("true" if e[1] else "false")
+        if self.dyn(e) is not None:
+            k, pos = self.dyn(e)
+            return f"some ({'' if pos else '!'}(getType ds other == {k}))"
+        if e[0] == "call" and not e[2]:
+            f = strip(e[1])
+            if f == ("mem", ("id", "other"), "isNull", False):
+                return "some (isNull ds other)"
+        if e[0] == "bin" and e[1] == "==":
+            a, b = strip(e[2]), strip(e[3])
+            if a == ("id", "other") and b == ("deref", ("this",)):
+                return "(flip other v)"
+            if b[0] == "call" and not b[2] and strip(b[1])[0] == "mem" and strip(strip(b[1])[1]) == ("id", "other") and not strip(b[1])[3]:
+                t, ct, part = self.ex(a, tag)
+                want = {"toBool": "bool", "toDouble": "double", "toInt": "int", "toUInt": "uint", "toInt64": "int64", "toUInt64": "uint64"}
+                m = strip(b[1])[2]
+                if t != "x" or m not in want or want[m] != ct:
+                    self.refuse(f"`{m}()` compared with a member of another type (implicit conversion)")
+                if ct == "bool":
+                    return f"some (x == {m} ds other)"
+                if ct == "double":
+                    return f"some (ds.eq x ({m} ds other))"
+                return f"(optEq x ({m} ds other))"
+        if e[0] == "bin" and e[1] == "&&":
+            k = self.dyn(e[2])
+            if k is not None and k[1]:
+                k = k[0]
+                pat = CTOR_OF_TAG[k].replace(" x", " t")
+                return f"(match other with | {pat} => {'some ' if k == 10 else ''}{self.pay_eq(e[3], tag, k)} | _ => some false)"
+        self.refuse(f"expression {e!r} is outside the translated subset")
+
+    def walk(self, sts, tag):
+        for i, st in enumerate(sts):
+            rest = sts[i + 1:]
+            if st[0] == "block":
+                return self.walk(st[1] + rest, tag)
+            if st[0] == "if":
+                k = self.dyn(st[1])
+                if k is not None:
+                    k, pos = k
+                    yes, no = (st[2], st[3]) if pos else (st[3], st[2])
+                    pat = CTOR_OF_TAG[k].replace(" x", " t")
+                    a = self.walk_then([yes] + rest, tag, k)
+                    return f"(match other with | {pat} => {a} | _ => {self.walk([no] + rest, tag)})"
+                return self.walk([st[2] if self.static(st[1], tag) else st[3]] + rest, tag)
+            if st[0] == "switch":
+                start = None
+                for j, (labels, _) in enumerate(st[2]):
+                    if any(l is not None and self.const_of(l) == tag for l in labels):
+                        start = j
+                if start is None:
+                    for j, (labels, _) in enumerate(st[2]):
+                        if None in labels:
+                            start = j
+                body = []
+                if start is not None:
+                    for j in range(start, len(st[2])):
+                        body += st[2][j][1]
+                        if st[2][j][1] and st[2][j][1][-1][0] in ("break", "return"):
+                            break
+                return self.walk([s for s in body if s[0] != "break"] + rest, tag)
+            if st[0] == "return":
+                return self.value(st[1], tag)
+            self.refuse(f"statement {st[0]} in operator==")
+        self.refuse(f"no return for tag {tag}")
+
+    def walk_then(self, sts, tag, k):
+        """the branch where `other.data->type == k` holds: `return payload == payload;`"""
+        flat = []
+        def fl(xs):
+            for x in xs:
+                if x[0] == "block":
+                    fl(x[1])
+                else:
+                    flat.append(x)
+        fl(sts)
+        st = flat[0] if flat else ("none",)
+        if st[0] == "return":
+            return ("some " if k == 10 else "") + self.pay_eq(st[1], tag, k)
+        self.refuse("branch under a test of other's type is not a single return")
+
+    def run(self, body):
+        sts = parse_body(body, self.fn)
+        arms = []
+        for tag in range(11):
+            t = self.walk(sts, tag)
+            pat = CTOR_OF_TAG[tag] if re.search(r"\bx\b", t) else CTOR_OF_TAG[tag].replace(" x", " _")
+            arms.append(f"  | {pat} => {t}")
+        return "\n".join(arms)
+
+
 # ---- driver ------------------------------------------------------------------------------------------------------------
 def enum_of(src):
     m = re.search(r"enum\s+Type\s*\{([^}]*)\}", src)
@@ -1056,6 +1189,9 @@ def generate(repo):
             ("toStr", r"String\s+toString\s*\(\s*\)\s*const", "str", "Str")]:
         arms = Coe(name + "() const", enum, rtype).run(extract(src, name + "() const", rx))
         coe.append(f"def {name} (ds : DblSem) (v : Val) : {lt} :=\n  match v with\n{arms}\n")
+    eq_arms = Eq("operator==", enum, "bool").run(extract(src, "operator==", r"bool\s+operator\s*==\s*\(\s*const\s+Variant\s*&\s*other\s*\)\s*const"))
+    coe.append("/-- `operator==`: `ceq` = the containers' `operator==` on two payloads of the same type, `flip` = the call `other == *this` -/\n"
+               "def eq (ds : DblSem) (ceq flip : Val → Val → Option Bool) (v other : Val) : Option Bool :=\n  match v with\n" + eq_arms + "\n")
     text_coe = ("/- generated by tools/gen_variant.py from include/nstd/Variant.hpp - do not edit -/\n"
                 "import Nstd.Variant.Val\n\nset_option linter.unusedVariables false\n\n"
                 "namespace Nstd.Generated.VariantCoerce\nopen Nstd.Variant\n\n" + "\n".join(coe) +
